@@ -786,7 +786,7 @@ func (c *compiler) compile(tok *token) []instruction {
 		res = append(res, c.toData(typ, tok.Tokens[newData])...)
 	case "map":
 		const newKeyType, newValueType, newData = 0, 1, 2
-		typ := mapType(typeFromToken(c, tok.Tokens[newKeyType]), typeFromToken(c, tok.Tokens[newValueType]))
+		typ := mapTypeFromTokens(c, tok.Tokens[newKeyType], tok.Tokens[newValueType])
 		res = append(res, c.toData(typ, tok.Tokens[newData])...)
 	case "range":
 		c.Begin()
@@ -1048,12 +1048,24 @@ func (c *compiler) doOptimize(in []instruction) []instruction {
 	return out
 }
 
+// mapTypeFromTokens builds a map type. The key has one byte in the packed
+// type, which holds every scalar type; anything else (a struct reference, a
+// name that is not a type) cannot be a key and must not spill into the bits
+// of the element type.
+func mapTypeFromTokens(c *compiler, key, value *token) Type {
+	k := typeFromToken(c, key)
+	if k&^typeMask != 0 {
+		panicf("invalid map key type: %s", key.Text)
+	}
+	return mapType(k, typeFromToken(c, value))
+}
+
 func typeFromToken(c *compiler, tok *token) Type {
 	switch tok.Symbol {
 	case "[]":
 		return sliceType(typeFromToken(c, tok.Tokens[0]))
 	case "map":
-		return mapType(typeFromToken(c, tok.Tokens[0]), typeFromToken(c, tok.Tokens[1]))
+		return mapTypeFromTokens(c, tok.Tokens[0], tok.Tokens[1])
 	case "(name)", ".":
 		ref := c.compile(tok)
 		var typ Value
